@@ -109,7 +109,7 @@ Definition ex_untainted : trace := ex_untainted_pre ++ [ev 41 (AReq 1) (KClaimRe
 (** the state-set rule alone: a waited, untainted balancer with a draining target *)
 Definition ex_marked : trace := deploy0 ++ [ev 40 (AGo 1) (KStateSet 0 THealthy TDraining)].
 
-(** a snapshot that lists request 1 twice while requests 1 and 3 are in flight on t1 *)
+(** a snapshot that lists request 1 twice while requests 1 and 3 are in flight on t1: rejected (ids must be distinct) *)
 Definition ex_dup_pre : trace := deploy0 ++ req_hang_on 1 1 20 ++ req_hang_on 2 0 21 ++ req_hang_on 3 1 22 ++ [
   ev 40 (AGo 1) (KStateSet 1 THealthy TDraining);
   ev 40 (AGo 1) (KDrainBegin 1 THealthy 100)].
@@ -147,7 +147,7 @@ Definition ex_upgrade_post : trace := [
 Definition ex_upgrade : trace :=
   ex_upgrade_pre ++ ex_upgrade_snap :: ex_upgrade_mid ++ ex_upgrade_rest :: ex_upgrade_post.
 
-(** a snapshot with a duplicate entry misses the upgraded request 3 *)
+(** the same with request 3 upgraded: the duplicate snapshot [ex_dup_ev] is rejected here too *)
 Definition ex_dup_up_pre : trace := deploy0 ++ req_hang_on 1 1 20 ++ req_hang_on 2 0 21 ++ req_hang_on 3 1 22 ++ [
   ev 23 (AReq 3) (KTargetReplied 1 3 101);
   ev 23 (AReq 3) (KHijacked 3);
